@@ -2,8 +2,8 @@
 # Runs every claimed check of MANIFEST.json at the given tier (default quick); prints one summary line per check.
 tier=${1:-quick}
 rc=0
-for id in $(python3 -c "import json;print(' '.join(c['property_id'] for c in json.load(open('/verif/MANIFEST.json'))['checks']))"); do
-  /verif/bin/verif check $id --tier $tier > /tmp/verif_$id.out 2>&1
+for id in $(python3 -c "import json;print(' '.join(c['property_id'] for c in json.load(open('$(dirname $0)/../MANIFEST.json'))['checks']))"); do
+  $(dirname $0)/../bin/verif check $id --tier $tier > /tmp/verif_$id.out 2>&1
   code=$?
   echo "exit=$code $(grep -E "^$id (quick|thorough):" /tmp/verif_$id.out | tail -1)"
   grep -E "^VIOLATION|HARNESS TROUBLE|BUILD FAILED" /tmp/verif_$id.out | head -5
